@@ -5,6 +5,8 @@ from binascii import hexlify as _hexlify
 def _c17_out(s):
     if s in ("TO", "ER"):
         return {"kind": s, "read": -1, "lat": 0}
+    if s[0] == "E":
+        return {"kind": "E", "err": s.split(":", 1)[1], "read": -1, "lat": 0}
     code, ra, chal = s[1:].split(":")
     return {"kind": "S", "code": int(code), "retry_after": unhex(ra), "chal": int(chal), "read": -1, "lat": 0}
 
@@ -16,7 +18,7 @@ def _c17_ints(s):
 def _c17_case(c):
     p = c.split(" ")
     if p[0] in ("T", "A", "W"):
-        _, mr, mn, mx, tbl, dflt, cn, kind, data, script, opts = p
+        _, pred, mr, mn, mx, tbl, dflt, cn, kind, data, script, opts = p
         man = ""
         if kind[0] in "Mm":
             man, kind = kind[0], kind[1:]
@@ -35,12 +37,12 @@ def _c17_case(c):
         if cn != "-":
             t, k = cn.split(":")
             cancel, deadline = int(t), k == "d"
-        return {"op": p[0], "max_retry": int(mr), "min": int(mn), "max": int(mx), "tbl": _c17_ints(tbl), "dflt": int(dflt),
+        return {"op": p[0], "pred": "" if pred == "-" else pred, "max_retry": int(mr), "min": int(mn), "max": int(mx), "tbl": _c17_ints(tbl), "dflt": int(dflt),
                 "cancel": cancel, "deadline": deadline, "body": kind, "manifest": man, "unknown_len": unknown, "method": method, "pre_auth": preauth,
                 "data": "" if data == "-" else data, "big_len": 0, "script": behs}
     if p[0] == "D":
-        _, mr, mn, mx, tbl, dflt, att, out = p
-        return {"op": "D", "which": "P", "max_retry": int(mr), "min": int(mn), "max": int(mx), "tbl": _c17_ints(tbl),
+        _, pred, mr, mn, mx, tbl, dflt, att, out = p
+        return {"op": "D", "which": "P", "pred": "" if pred == "-" else pred, "max_retry": int(mr), "min": int(mn), "max": int(mx), "tbl": _c17_ints(tbl),
                 "dflt": int(dflt), "attempt": int(att), "out": _c17_out(out), "fden": 1, "jden": 1}
     if p[0] == "B":
         _, which, mr, mn, mx, base, fn, fd, jn, jd, att, out, seen = p
